@@ -48,6 +48,11 @@ pub(crate) fn fire_event(ev: ExtEvent) {
 /// Runs `f` as one atomic "blocking pool" operation of the calling task: a scheduling point,
 /// then the closure inline. `site` names the operation for faults and the trace.
 pub async fn blocking_op<T>(site: &'static str, path: &std::path::Path, f: impl FnOnce() -> std::io::Result<T>) -> std::io::Result<T> {
+    with(|rt| {
+        if rt.trace.full {
+            rt.evv("fs-issue", &format!("{} {}", site, trace::esc_path(path)));
+        }
+    });
     rt::sched_point(site).await;
     let fault = with(|rt| {
         vfs::note_path(rt, path);
